@@ -118,6 +118,15 @@ def make_body(alpha, max_len, sup_len):
             ctx.fail({'symptom': 'resolve raised', 'exception': type(e).__name__}, case=case, message=str(e)[:200])
             return
         _check_score(ctx, fbs, sups, case, final)
+        # resolving the same report again must give the same result (nothing accumulates in the report)
+        ctx.step('simple.resolve (again)')
+        try:
+            again = simple.resolve()
+            if (again.score, again.correct, again.label) != (final.score, final.correct, final.label):
+                ctx.fail({'symptom': 'second resolve of the same report differs'}, case=case,
+                         first=(final.score, final.correct, final.label), second=(again.score, again.correct, again.label))
+        except Exception as e:
+            ctx.fail({'symptom': 'second resolve raised', 'exception': type(e).__name__}, case=case)
         # 'N%' and N/100 are interchangeable; resolved_score keeps the sign
         for f in fbs:
             if f.score is not None and not f.unscored and not ref.suppressed(f, sups) and f.resolved_score is not None:
